@@ -860,6 +860,8 @@ class EquivPos1(Macro):
 
     def eval(self, args, prevs=None):
         arg1, arg2, arg3 = args
+        if not arg1.is_not() or not arg1.arg.is_equals():
+            raise VeriTException("equiv_pos1", "first literal should be a negated equivalence")
         eq_tm = arg1.arg
         if eq_tm.arg1 == arg2 and Not(eq_tm.arg) == arg3:
             return Thm(Or(*args))
@@ -879,6 +881,8 @@ class EquivPos2(Macro):
 
     def eval(self, args, prevs=None):
         arg1, arg2, arg3 = args
+        if not arg1.is_not() or not arg1.arg.is_equals():
+            raise VeriTException("equiv_pos2", "first literal should be a negated equivalence")
         eq_tm = arg1.arg
         if Not(eq_tm.arg1) == arg2 and eq_tm.arg == arg3:
             return Thm(Or(*args))
